@@ -366,6 +366,9 @@ def compare(case, want, obs):
         return probs
     if want.get('status') is not None and obs['status'] != want['status']:
         probs.append(('status', f'expected status {want["status"]!r}, got {obs["status"]!r}'))
+    if obs['kind'] == 'exc' and obs['status'] == '.' and (('status', tn) in changed or ('iterations', tn) in changed):
+        # '.' is what a call records when it returns True; a call that raised instead has not recorded the period as solved
+        probs.append(('raised-but-recorded-solved', f'the call raised {obs.get("exc")} yet left the period recorded as solved (status ".", iterations {obs["iterations"]})'))
     if want.get('iterations') is not None and obs['iterations'] != want['iterations']:
         probs.append(('iterations', f'expected iterations[t] = {want["iterations"]}, got {obs["iterations"]}'))
     if len(obs['evals']) != want['evals'] or obs['evals'] != list(range(1, want['evals'] + 1)):
